@@ -11,7 +11,7 @@ import vlib  # noqa: E402
 def stages(tier):
     return [
         {"name": "web", "cmd": "web", "args": [], "check": "Check.Auth.check_web",
-         "timeout": 400, "timeout_thorough": 2400},
+         "timeout": 400, "timeout_thorough": 2400, "search_budget": 20},
         {"name": "phc", "cmd": "unit", "args": ["-prop", "C16phc"], "check": "Check.Phc.check_phc",
          "timeout": 300, "timeout_thorough": 1800},
     ]
@@ -72,8 +72,30 @@ def pre(ctx):
                        "case": {"found": gc, "expected": GC_EXPECTED}}, "replay_gc_text.json", no_input=True)
 
 
+BRANCHES = (["refused by Harden", "no such path (404)", "path without that method (405)"] +
+            ["%s / cookie %s" % (k, c) for k in ("login", "logout", "change-password", "config PATCH", "other route")
+             for c in ("absent", "unknown", "expired", "live near expiry (extended)", "live")] +
+            ["GC pass", "stored hash edited"])
+
+
+def decode_tags(ctx):
+    """Check.Auth.wc_tag is the bit set of model branches a history reached: turn the histogram of
+    bit sets into the number of histories that reached each branch."""
+    raw = ctx.tags.get("web")
+    if not raw:
+        return
+    out = {}
+    for k, n in raw.items():
+        bits = int(k)
+        for bit, name in enumerate(BRANCHES):
+            if bits >> bit & 1:
+                out[name] = out.get(name, 0) + n
+    ctx.tags["web"] = out
+
+
 def post(ctx):
     """The table extracted from the source must be the table the running code registered."""
+    decode_tags(ctx)
     src = getattr(ctx, "c20_source_routes", None)
     path = os.path.join(ctx.work, "web", "routes_runtime.json")
     if src is None or not os.path.exists(path):
